@@ -125,7 +125,7 @@ def main():
         })
     manifest = {
         "version": 1,
-        "setup_cmd": "cd /verif/harness && CARGO_NET_OFFLINE=true cargo build --offline --profile verif --workspace",
+        "setup_cmd": "cd /verif/harness && CARGO_NET_OFFLINE=true cargo build --offline --profile verif --workspace && (CARGO_NET_OFFLINE=true CARGO_TARGET_DIR=/verif/harness/target/miri MIRIFLAGS='-Zmiri-tree-borrows -Zmiri-permissive-provenance -Zmiri-ignore-leaks -Zmiri-disable-isolation' cargo +nightly miri run --offline -q -p vh-gen -- --sanitizer-child --none || true)",
         "hooks": {
             "guard": "unhindered_ec_verif",
             "enable": "no source hooks are needed: every property is observed at the public API (probe operators, recording RNG, tagged values); the guard name is reserved (RUSTFLAGS=\"--cfg unhindered_ec_verif\") should one become necessary",
